@@ -76,6 +76,8 @@ pub enum Variant {
     OneNan,
     /// bincode round trip right after warm-up; the run continues on the restored copy
     SerdeAfterWarmup,
+    /// two inputs of magnitude ~1e154 (and volume 1e154) right after warm-up: products and sums overflow
+    HugePair,
 }
 
 /// (b) long runs: serialized size at checkpoints, live heap after warm-up vs after every segment
@@ -96,6 +98,12 @@ fn long_job(cfg: &Cfg, regimes: &[Regime], seglen: usize, seed: u64, variant: Va
                 let bytes = s.ser().unwrap_or_default();
                 if let Ok(r) = s.de(&bytes) {
                     s = r;
+                }
+            }
+            Variant::HugePair => {
+                for x in [1.0e154, 1.5e154] {
+                    let op = if cfg.kind.has_scalar() { Op::S(x) } else { Op::B(Bar { o: x, h: x * 1.5, l: x * 0.5, c: x, v: 1.0e154 }) };
+                    s.apply(&op);
                 }
             }
             Variant::OneNan => {
@@ -207,7 +215,7 @@ pub fn run(ctx: &Ctx) -> CheckResult {
                     jobs.push((cfg, pair.clone(), l, Variant::Plain));
                     // variants on every 4th pair: reset-and-refill sessions, a NaN, a serde round trip
                     if pi % 4 == 0 {
-                        for v in [Variant::ResetEvery(10), Variant::ResetEvery(2 * p + 1), Variant::OneNan, Variant::SerdeAfterWarmup] {
+                        for v in [Variant::ResetEvery(10), Variant::ResetEvery(2 * p + 1), Variant::OneNan, Variant::SerdeAfterWarmup, Variant::HugePair] {
                             jobs.push((cfg, pair.clone(), l, v));
                         }
                     }
@@ -244,7 +252,7 @@ pub fn run(ctx: &Ctx) -> CheckResult {
     }
     res.exhaustive = false;
     res.rule = "case = (configuration, stream): (a) bincode length of the real object in every state of every short sequence; (b) long generated streams (every ordered pair of shape segments): serialized length at checkpoints and live heap bytes of the executing thread (counting global allocator) after warm-up vs after every segment; both must stay <= 256 + 64*sum(periods); non-trivial = state beyond the first window / long run".into();
-    res.bounds = format!("(a) all 22 indicators, periods 1..4, all sequences over 3 symbols + reset up to depth min(3n+3, {}); (b) periods {} x all 49 ordered pairs of {{up, down, alternating extremes, flat, LCG walk, stair, zero-mix (0.0 / -0.0 / small signed values)}} x segment length {} (O(n)-per-step subjects shortened and thinned); every 4th pair additionally with reset() every 10 / 2n+1 inputs, with one NaN input after warm-up, and continued on a bincode-restored copy", if th { 13 } else { 10 }, if th { "1..16, 31..33, 63..65, 127..129, 255..257, 511, 512" } else { "1, 2, 5, 14, 64, 257" }, if th { 500_000 } else { 20_000 });
+    res.bounds = format!("(a) all 22 indicators, periods 1..4, all sequences over 3 symbols + reset up to depth min(3n+3, {}); (b) periods {} x all 49 ordered pairs of {{up, down, alternating extremes, flat, LCG walk, stair, zero-mix (0.0 / -0.0 / small signed values)}} x segment length {} (O(n)-per-step subjects shortened and thinned); every 4th pair additionally with reset() every 10 / 2n+1 inputs, with one NaN input after warm-up, with two inputs of magnitude 1e154 (overflowing products), and continued on a bincode-restored copy", if th { 13 } else { 10 }, if th { "1..16, 31..33, 63..65, 127..129, 255..257, 511, 512" } else { "1, 2, 5, 14, 64, 257" }, if th { 500_000 } else { 20_000 });
     res.assumptions = vec!["systematically enumerated family of stream shapes, not all streams".into(), "live heap is measured per thread: memory handed to another thread would not be seen (the crate spawns no threads)".into()];
     res
 }
